@@ -229,6 +229,8 @@ class Skel:
                 out.append("(PProcess true)")
             elif t == "self.resetFrame()":
                 out.append("PReset")
+            elif t == "self.advanceFrame()":
+                out.append("PAdvance")
             elif isinstance(s, ast.Break):
                 out.append("PBreak")
             elif t == "frame = self.getFrame()":
@@ -419,9 +421,9 @@ return False
     h = template(sk, sk.func(S, "getFrame"), "length = HOLE_len\nreturn self._buffer[HOLE_lo:HOLE_hi]\n")
     F += [("t_get_len", tr.tr(h["HOLE_len"])), ("t_get_lo", tr.tr(h["HOLE_lo"])), ("t_get_hi", tr.tr(h["HOLE_hi"]))]
     F += [("t_populate", populate(sk, sk.func(S, "populateResult")))]
-    s = Skel(sk, sk.func(S, "processIncomingPacket"), tr, ["wait", "errguard"])
+    s = Skel(sk, sk.func(S, "processIncomingPacket"), tr, ["wait"])
     skel, single = s.run(PREFIX)
-    F += [("t_wait", s.exprs.get("wait", "(EInt 0)")), ("t_errguard", s.exprs.get("errguard", "(EInt 0)"))]
+    F += [("t_wait", s.exprs.get("wait", "(EInt 0)"))]
     h = template(sk, sk.func(S, "_process"), PROCESS)
     F += [("t_errfc", tr.tr_bool(h["HOLE_errfc"])), ("t_skel", skel)]
     b = clean(sk.func(S, "buildPacket").body)
